@@ -106,6 +106,12 @@ func sanitizersForAttributeValue(c context) ([]string, error) {
 	}
 	urlAttrValPrefix := c.attr.value
 	if urlAttrValPrefix == "" {
+		if c.attr.dynamicStart {
+			// An earlier action already produced the start of this URL. Each action is sanitized
+			// on its own, so two of them could combine (e.g. "java" and "script:...") into a URL
+			// that neither of them is.
+			return nil, fmt.Errorf("actions must not occur directly after another action at the start of the %q URL attribute value of a %q element", c.attr.name, c.element.name)
+		}
 		// Attribute value prefixes in URL or TrustedResourceURL sanitization contexts
 		// must sanitized and normalized.
 		return reverse(appendIfNotEmpty(ret, normalizeURLFuncName, sanitizer)), nil
